@@ -58,6 +58,73 @@ pub fn run_cli(kind: &str, args: &[String], stdin: Option<&str>) -> CliObs {
     }
 }
 
+/// Arguments and stdin as raw bytes (argv is not text as far as the OS is concerned).
+pub fn run_cli_bytes(kind: &str, args: &[Vec<u8>], stdin: Option<&[u8]>) -> CliObs {
+    use std::os::unix::ffi::OsStringExt;
+    use std::os::unix::process::ExitStatusExt;
+    let mut c = Command::new(cli_bin(kind));
+    for a in args {
+        c.arg(std::ffi::OsString::from_vec(a.clone()));
+    }
+    c.env_remove("RUST_BACKTRACE").stdout(Stdio::piped()).stderr(Stdio::piped());
+    die_with_parent(&mut c);
+    c.stdin(if stdin.is_some() { Stdio::piped() } else { Stdio::null() });
+    let mut child = c.spawn().expect("cannot start the jsonlogic binary");
+    if let Some(bytes) = stdin {
+        let mut si = child.stdin.take().unwrap();
+        let _ = si.write_all(bytes);
+        drop(si);
+    }
+    let out = child.wait_with_output().expect("wait");
+    CliObs {
+        code: out.status.code(),
+        signal: out.status.signal(),
+        stdout: String::from_utf8_lossy(&out.stdout).into_owned(),
+        stderr: String::from_utf8_lossy(&out.stderr).into_owned(),
+    }
+}
+
+fn hex(b: &[u8]) -> String {
+    b.iter().map(|x| format!("{:02x}", x)).collect()
+}
+pub fn unhex(s: &str) -> Vec<u8> {
+    (0..s.len() / 2).filter_map(|i| u8::from_str_radix(&s[2 * i..2 * i + 2], 16).ok()).collect()
+}
+
+/// Byte strings that are not UTF-8 are not JSON texts: no result line, non-zero exit, no panic -
+/// whichever way they are delivered. (Valid UTF-8 controls go through the ordinary product.)
+fn non_utf8_space(ctx: &mut Ctx, kind: &str) {
+    let bad: Vec<&[u8]> = vec![b"\xff", b"\"\xff\"", b"{\"a\":\"x\xffy\"}", b"\"caf\xc3\"", b"\"\xc0\xaf\"", b"\"\xed\xa0\x80\"", b"[1,\xfe]", b"\xef\xbb\xbf1\xff", b"1\x80"];
+    let good_rule: &[u8] = b"{\"var\":\"a\"}";
+    let good_data: &[u8] = b"{\"a\":1}";
+    for b in &bad {
+        if !ctx.mine() {
+            continue;
+        }
+        let forms: Vec<(&str, Vec<Vec<u8>>, Option<&[u8]>)> = vec![
+            ("non-utf8:data-argument", vec![good_rule.to_vec(), b.to_vec()], None),
+            ("non-utf8:data-stdin", vec![good_rule.to_vec()], Some(*b)),
+            ("non-utf8:data-stdin-dash", vec![good_rule.to_vec(), b"-".to_vec()], Some(*b)),
+            ("non-utf8:rule-argument", vec![b.to_vec(), good_data.to_vec()], None),
+            ("non-utf8:rule-argument-data-stdin", vec![b.to_vec()], Some(good_data)),
+        ];
+        for (sub, args, stdin) in forms {
+            ctx.edge();
+            let case = json!({"bin": kind, "argv_hex": args.iter().map(|a| hex(a)).collect::<Vec<_>>(), "stdin_hex": stdin.map(hex)});
+            ctx.tick_external(&case);
+            let o = run_cli_bytes(kind, &args, stdin);
+            ctx.leaves += 1;
+            ctx.note_outcome(sub, format!("exit:{}", o.code.map(|c| c.to_string()).unwrap_or_else(|| "signal".into())));
+            ctx.nontrivial.insert(crate::ctx::hash_str(&case.to_string()));
+            let panicked = o.signal.is_some() || o.stderr.contains("panicked at") || o.code == Some(101) || o.code.is_none();
+            if panicked || o.code == Some(0) || !o.stdout.is_empty() {
+                let tail: String = o.stderr.chars().take(160).collect();
+                ctx.fail(sub, case, "not UTF-8, hence not JSON: no result line, a non-zero exit status, no panic".into(), format!("exit {:?} signal {:?} stdout {:?} stderr {:?}", o.code, o.signal, o.stdout, tail), None);
+            }
+        }
+    }
+}
+
 /// What the library itself does with (rule text, data text): Some((stdout, success)).
 pub struct LibExpect {
     pub stdout: String,
@@ -197,6 +264,7 @@ pub fn c18(ctx: &mut Ctx) {
                 judge_cli(ctx, "stdin-dash", kind, vec![r.to_string(), "-".to_string()], Some(d), Some((r, d)), true);
             }
         }
+        non_utf8_space(ctx, kind);
         // large documents on stdin and as argument
         if ctx.mine() {
             let big: String = format!("[{}]", (0..20000).map(|i| i.to_string()).collect::<Vec<_>>().join(","));
@@ -277,6 +345,7 @@ pub fn c01_cli(ctx: &mut Ctx) {
                 judge_cli(ctx, "cli:extremes-substr", kind, vec![rule.clone(), d.clone()], None, Some((&rule, &d)), false);
             }
         }
+        non_utf8_space(ctx, kind);
         // deep chains and deep data
         if ctx.mine() {
             for depth in [63usize, 64, 126, 127, 128, 129] {
@@ -435,6 +504,13 @@ pub fn oracle_loop() -> i32 {
 pub fn replay_cli(rec: &Value) -> i32 {
     let case = &rec["case"];
     let kind = case["bin"].as_str().unwrap_or("debug");
+    if let Some(hexargs) = case["argv_hex"].as_array() {
+        let args: Vec<Vec<u8>> = hexargs.iter().map(|h| unhex(h.as_str().unwrap_or(""))).collect();
+        let stdin = case["stdin_hex"].as_str().map(unhex);
+        let o = run_cli_bytes(kind, &args, stdin.as_deref());
+        println!("argv(hex): {:?}\nexit     : {:?} signal {:?}\nstdout   : {:?}\nstderr   : {:?}", hexargs, o.code, o.signal, o.stdout, o.stderr.chars().take(300).collect::<String>());
+        return 2;
+    }
     let args: Vec<String> = case["argv"].as_array().map(|a| a.iter().map(|x| x.as_str().unwrap_or("").to_string()).collect()).unwrap_or_default();
     let stdin = case["stdin"].as_str();
     let o = run_cli(kind, &args, stdin);
